@@ -2,7 +2,7 @@ CONSTANTS
   NA = 3
   LockOf0 <- L112
   MaxOps = 2
-  MaxSec = 2
+  MaxSec = 1
   Timeouts = TRUE
   Handoff = TRUE
   Eager = FALSE
